@@ -112,7 +112,8 @@ inline RotName parse_rotated(const std::string &name, const std::string &stem, c
     return r;
 }
 
-// strict single-member gzip reader
+// strict gzip reader (RFC 1952): one or more members, each complete, nothing else.  zlib's inflate in
+// gzip mode verifies header, deflate stream, CRC-32 and ISIZE of a member; the trailer is re-checked here.
 inline bool gunzip_strict(const std::string &in, std::string &out, std::string *err)
 {
     auto bad = [&](const char *m) {
@@ -123,45 +124,54 @@ inline bool gunzip_strict(const std::string &in, std::string &out, std::string *
     out.clear();
     if (in.size() < 18)
         return bad("shorter than the smallest gzip member");
-    const unsigned char *p = (const unsigned char *)in.data();
-    if (p[0] != 0x1f || p[1] != 0x8b)
-        return bad("bad magic");
-    if (p[2] != 8)
-        return bad("CM != 8");
-    if (p[3] & 0xE0)
-        return bad("reserved FLG bits set");
-    z_stream zs;
-    memset(&zs, 0, sizeof zs);
-    if (inflateInit2(&zs, 16 + 15) != Z_OK)
-        return bad("inflateInit2");
-    zs.next_in = (Bytef *)in.data();
-    zs.avail_in = (uInt)in.size();
-    char buf[65536];
-    int rc;
-    do {
-        zs.next_out = (Bytef *)buf;
-        zs.avail_out = sizeof buf;
-        rc = inflate(&zs, Z_NO_FLUSH);
-        if (rc != Z_OK && rc != Z_STREAM_END) {
-            inflateEnd(&zs);
-            return bad(rc == Z_DATA_ERROR ? "inflate: data error (stream, CRC or length)"
-                                          : (rc == Z_BUF_ERROR ? "inflate: truncated" : "inflate: error"));
-        }
-        out.append(buf, sizeof buf - zs.avail_out);
-    } while (rc != Z_STREAM_END);
-    size_t left = zs.avail_in;
-    inflateEnd(&zs);
-    if (left != 0)
-        return bad("trailing bytes after the gzip member");
-    // re-check the trailer ourselves
-    size_t n = in.size();
-    uint32_t crc = p[n - 8] | (p[n - 7] << 8) | (p[n - 6] << 16) | ((uint32_t)p[n - 5] << 24);
-    uint32_t isz = p[n - 4] | (p[n - 3] << 8) | (p[n - 2] << 16) | ((uint32_t)p[n - 1] << 24);
-    uint32_t c = (uint32_t)crc32(0L, (const Bytef *)out.data(), (uInt)out.size());
-    if (c != crc)
-        return bad("CRC-32 in trailer does not match content");
-    if (isz != (uint32_t)out.size())
-        return bad("ISIZE in trailer does not match content length");
+    size_t pos = 0;
+    int members = 0;
+    while (pos < in.size()) {
+        const unsigned char *p = (const unsigned char *)in.data() + pos;
+        size_t left = in.size() - pos;
+        if (left < 18)
+            return bad(members ? "trailing bytes after the last gzip member" : "shorter than the smallest gzip member");
+        if (p[0] != 0x1f || p[1] != 0x8b)
+            return bad(members ? "trailing bytes after the last gzip member" : "bad magic");
+        if (p[2] != 8)
+            return bad("CM != 8");
+        if (p[3] & 0xE0)
+            return bad("reserved FLG bits set");
+        z_stream zs;
+        memset(&zs, 0, sizeof zs);
+        if (inflateInit2(&zs, 16 + 15) != Z_OK)
+            return bad("inflateInit2");
+        zs.next_in = (Bytef *)p;
+        zs.avail_in = (uInt)left;
+        std::string part;
+        char buf[65536];
+        int rc;
+        do {
+            zs.next_out = (Bytef *)buf;
+            zs.avail_out = sizeof buf;
+            rc = inflate(&zs, Z_NO_FLUSH);
+            if (rc != Z_OK && rc != Z_STREAM_END) {
+                inflateEnd(&zs);
+                return bad(rc == Z_DATA_ERROR ? "inflate: data error (stream, CRC or length)"
+                                              : (rc == Z_BUF_ERROR ? "inflate: truncated" : "inflate: error"));
+            }
+            part.append(buf, sizeof buf - zs.avail_out);
+        } while (rc != Z_STREAM_END);
+        size_t used = left - zs.avail_in;
+        inflateEnd(&zs);
+        // re-check this member's trailer ourselves
+        const unsigned char *t = p + used - 8;
+        uint32_t crc = t[0] | (t[1] << 8) | (t[2] << 16) | ((uint32_t)t[3] << 24);
+        uint32_t isz = t[4] | (t[5] << 8) | (t[6] << 16) | ((uint32_t)t[7] << 24);
+        uint32_t c = (uint32_t)crc32(0L, (const Bytef *)part.data(), (uInt)part.size());
+        if (c != crc)
+            return bad("CRC-32 in trailer does not match content");
+        if (isz != (uint32_t)part.size())
+            return bad("ISIZE in trailer does not match content length");
+        out += part;
+        pos += used;
+        members++;
+    }
     return true;
 }
 
